@@ -556,6 +556,9 @@ func c13Guards(c *Ctx, pr *PropertyRun, prop string, entries []*ssa.Function) {
 								} else {
 									ok = guardedIndex(lt, sx.X, need-1, b)
 									why = "dominating len test"
+									if !ok && need == 1 && inductiveNonEmpty(lt, sx.X, map[ssa.Value]bool{}) {
+										ok, why = true, "non-empty on every way into the loop and around it"
+									}
 								}
 							}
 							r.Ob(ok)
@@ -598,6 +601,9 @@ func c13Guards(c *Ctx, pr *PropertyRun, prop string, entries []*ssa.Function) {
 				if !ok {
 					ok = guardedIndex(lt, sl, k, b)
 					why = "dominating len test"
+				}
+				if !ok && k == 0 && inductiveNonEmpty(lt, sl, map[ssa.Value]bool{}) {
+					ok, why = true, "non-empty on every way into the loop and around it"
 				}
 				r.Ob(ok)
 				r.Sample(map[string]interface{}{"function": fnKey(fn), "index": k, "guard": why, "ok": ok, "pos": p.instrPos(in)})
@@ -686,6 +692,44 @@ func nonNegIndexResult(v ssa.Value, at *ssa.BasicBlock) bool {
 				return true
 			}
 		}
+	}
+	return false
+}
+
+// inductiveNonEmpty: a slice that has at least one element by construction:
+// a literal, an append of at least one element, or a variable (phi) every
+// incoming value of which is such a slice or arrives over an edge dominated
+// by a length test that guarantees an element (loop invariant by induction:
+// a value under examination is assumed non-empty on the back edge).
+func inductiveNonEmpty(lt []lenTest, v ssa.Value, seen map[ssa.Value]bool) bool {
+	if _, isPhi := v.(*ssa.Phi); isPhi {
+		if seen[v] {
+			return true
+		}
+		seen[v] = true
+	}
+	if ok, _ := knownLongEnough(v, 0); ok {
+		return true
+	}
+	switch x := v.(type) {
+	case *ssa.Call:
+		if bi, ok := x.Call.Value.(*ssa.Builtin); ok && bi.Name() == "append" && len(x.Call.Args) == 2 {
+			if ok, _ := knownLongEnough(x.Call.Args[1], 0); ok {
+				return true
+			}
+			return inductiveNonEmpty(lt, x.Call.Args[0], seen)
+		}
+	case *ssa.Phi:
+		for i, e := range x.Edges {
+			if inductiveNonEmpty(lt, e, seen) {
+				continue
+			}
+			if i < len(x.Block().Preds) && guardedIndex(lt, e, 0, x.Block().Preds[i]) {
+				continue
+			}
+			return false
+		}
+		return true
 	}
 	return false
 }
